@@ -27,4 +27,25 @@ SPECS = {
                 'request raised after the tree had been edited or at least one op succeeded; distinct = event-log digest',
         'assumptions': _EDIT_ASSUME + ['MemoryError/KeyboardInterrupt style asynchronous failures are not injected (pfst does not promise rollback for them)'],
     },
+    'C02': {
+        'engine': 'editsim', 'mod': 'sim.engines', 'quick': 6000, 'thorough': 100000, 'level': 'exploration',
+        'rule': 'one evaluation = one seeded run: program + history of 2-10 ops mixing structured edits with read-only '
+                'query bursts (cache warming on seeded node subsets) and long-lived FSTView handles; after edits (every '
+                'step, every third step, or only at the end - a swarm knob, so cold and warm caches are both explored) ~70 '
+                'queries on EVERY node (loc/bloc/pars/own_src/links/navigation/predicates/views/docstr/walk order) are '
+                'compared with the same queries on FST(root.src) built from scratch; non-trivial = at least one edit '
+                'succeeded; distinct = event-log digest',
+        'assumptions': _EDIT_ASSUME + ['reference = pfst itself on a freshly parsed tree (the property is relational)'],
+    },
+    'C03': {
+        'engine': 'editsim', 'mod': 'sim.engines', 'quick': 8000, 'thorough': 150000, 'level': 'exploration',
+        'rule': 'one evaluation = one seeded run: program + history of 1-6 VETTED container requests (slice put/delete, '
+                'one-element put/delete, insert/append/prepend, optional-field put/delete) on ~45 (node type, field) '
+                'container kinds with bounds in [-len-2, len+2] U {end}; the expected tree is computed on the pure AST '
+                'with Python list operations and compared (whole-tree structure) with the live result, with the result of '
+                'the same request through every other equivalent entry point on forked fresh trees, and on a re-laid-out '
+                'twin; refusal of a vetted request is a violation unless not-implemented; non-trivial = at least one '
+                'vetted request succeeded; distinct = event-log digest',
+        'assumptions': _EDIT_ASSUME + ['only vetted families are asserted against the list model (see DESIGN 2.4); emptying a Set, starred/keyword interleavings and virtual fields with ordering rules are outside the vetted class'],
+    },
 }
